@@ -6,7 +6,7 @@
    params_ok p  =  pow2 avg && min <= avg && avg <= max        (check_rabin_params)
                    && PREFILL_SLICE <= min && BUF_SIZE - 1 <= min   (forced by the proof). *)
 From Verif.Base Require Import Tactics.
-From Verif.C06 Require Import Extracted Model Spec ListLemmas Proofs Proofs2 Proofs3.
+From Verif.C06 Require Import Extracted Model Spec ListLemmas Proofs Proofs2 Proofs3 Proofs4.
 Local Open Scope N_scope.
 
 (* For EVERY read schedule (1-byte reads, short reads, Interrupted, any mixture), every size
@@ -38,3 +38,70 @@ Theorem chunks_bounds : forall md p hint s sched,
       0 < nlen c /\ nlen c <= c_max p /\ (post <> [] -> c_min p <= nlen c).
 Proof. exact chunks_bounds_lemma. Qed.
 Print Assumptions chunks_bounds.
+
+(* The parameters the code ACCEPTS (check_rabin_params as found in the source, regenerated into
+   Extracted.rabin_param_errors) satisfy the hypotheses, so for every accepted parameter set,
+   every polynomial, stream, schedule: lossless, bounded, equal to the specification. *)
+Theorem accepted_params_ok : forall P avg mn mx,
+  rabin_accepts avg mn mx = true ->
+  params_ok {| c_poly := P; c_avg := avg; c_min := mn; c_max := mx |} = true.
+Proof. exact accepted_params_ok_lemma. Qed.
+Print Assumptions accepted_params_ok.
+
+Theorem accepted_rabin_partition : forall md P avg mn mx hint s sched,
+  rabin_accepts avg mn mx = true ->
+  let p := {| c_poly := P; c_avg := avg; c_min := mn; c_max := mx |} in
+  chunks_impl md p hint s sched = Ok (cuts p s) /\ concat (cuts p s) = s /\ bounds_ok mn mx (cuts p s) = true.
+Proof. exact accepted_rabin_partition_lemma. Qed.
+Print Assumptions accepted_rabin_partition.
+
+(* Where the first chunk ends: at the LEAST length L >= min at which L = max, or the window
+   fingerprint has its low bits zero, or the stream ends (is_cut, Spec.v). *)
+Theorem first_cut_is_least : forall T p s, c_min p <= nlen s ->
+  let L := N.of_nat (first_len T p s) in
+  c_min p <= L /\ L <= nlen s /\ is_cut T p s L = true /\
+  forall L', c_min p <= L' -> L' < L -> is_cut T p s L' = false.
+Proof. exact first_cut_is_least_lemma. Qed.
+Print Assumptions first_cut_is_least.
+
+(* Cut points depend only on the bytes since the previous cut: if |a| is a cut of a ++ t, the
+   chunks after it are exactly the chunks of t alone - so two streams sharing the suffix t cut it
+   identically after their first common cut. *)
+Theorem resync_after_common_cut : forall p t pre a post, params_ok p = true ->
+  cuts p (a ++ t) = pre ++ post -> concat pre = a -> post = cuts p t.
+Proof. exact resync_lemma. Qed.
+Print Assumptions resync_after_common_cut.
+
+(* fixed-size chunker *)
+Theorem fixed_size_partition : forall size hint s sched, 0 < size ->
+  fixed_impl size hint s sched = Some (fixed_cuts size s) /\
+  concat (fixed_cuts size s) = s /\ fixed_bounds_ok size (fixed_cuts size s) = true.
+Proof. exact fixed_size_partition_lemma. Qed.
+Print Assumptions fixed_size_partition.
+
+Theorem accepted_fixed_size_partition : forall size hint s sched, fixed_accepts size = true ->
+  fixed_impl size hint s sched = Some (fixed_cuts size s) /\
+  concat (fixed_cuts size s) = s /\ fixed_bounds_ok size (fixed_cuts size s) = true.
+Proof. exact accepted_fixed_partition_lemma. Qed.
+Print Assumptions accepted_fixed_size_partition.
+
+(* Outside the hypotheses the property fails - these are the parameter sets the unchanged tree
+   accepted (defects repaired by the fix commit; the acceptance theorems above break if the
+   checks are removed again). *)
+Theorem chunks_bounds_tiny_params_refuted :
+  exists p s, pow2 (c_avg p) = true /\ c_min p <= c_avg p /\ c_avg p <= c_max p /\ PREFILL_SLICE <= c_min p /\
+    chunks_impl Debug p 0 s [] = Panic PMinSizeSub /\
+    exists cs, chunks_impl Release p 0 s [] = Ok cs /\ bounds_ok (c_min p) (c_max p) cs = false.
+Proof. exact chunks_bounds_tiny_params_refuted_lemma. Qed.
+Print Assumptions chunks_bounds_tiny_params_refuted.
+
+Theorem chunk_min_below_window_refuted :
+  exists p s, pow2 (c_avg p) = true /\ c_min p <= c_avg p /\ c_avg p <= c_max p /\
+    chunks_impl Debug p 0 s [] = Panic PWindowSub /\ chunks_impl Release p 0 s [] = Panic PWindowSlice.
+Proof. exact chunk_min_below_window_refuted_lemma. Qed.
+Print Assumptions chunk_min_below_window_refuted.
+
+Theorem fixed_size_zero_refuted :
+  exists s, s <> [] /\ forall hint sched, fixed_impl 0 hint s sched = Some [].
+Proof. exact fixed_size_zero_refuted_lemma. Qed.
+Print Assumptions fixed_size_zero_refuted.
